@@ -298,6 +298,19 @@ class C16(Prop):
             c = mk_case(PREFIXES[(j + 2) % 4], recs_upto(now, j % 2 == 0), ws)
             c['_kind'] = 'boundary:default'
             cases.append(c)
+        # windows of weeks: one recording a day (and two on some days) over 45 days, windows of 15 - 45 day folders
+        base = minutes(datetime.datetime(2021, 3, 1))
+        pairs = [('Op', base + DAY * k + 720) for k in range(45)] + [('Op', base + DAY * k + 5) for k in (16, 17, 31, 32, 33)]
+        pairs.sort(key=lambda ct: ct[1])
+        us = self.uids(len(pairs), rng, True)
+        long_recs = [{'cat': c, 'uid': u, 't': t} for (c, t), u in zip(pairs, us)]
+        top = base + 46 * DAY
+        ws = [{'cat': 'Op', 's': base + DAY * a, 'e': base + DAY * b + 900, 'now': top, 'lim': None}
+              for a, b in ((0, 14), (0, 15), (0, 16), (0, 17), (0, 18), (1, 20), (0, 31), (0, 32), (0, 33), (0, 44), (10, 44), (28, 44))]
+        ws += [{'cat': 'Op', 's': base + DAY * a, 'e': None, 'now': top, 'lim': None} for a in (0, 12, 28, 29)]
+        c = mk_case(PREFIXES[1], long_recs, ws)
+        c['_kind'] = 'boundary:weeks'
+        cases.append(c)
         return cases
 
     BASES = [datetime.datetime(2021, 2, 26), datetime.datetime(2021, 3, 9), datetime.datetime(2020, 2, 27),
